@@ -2,6 +2,7 @@
 alias resolution through the regenerated `Gen.Alias`. -/
 import Xrfmv.Drv.Common
 import Xrfmv.Model.Kernel
+import Xrfmv.Model.KernelGen
 
 open Lean Xrfmv.Drv
 
@@ -83,7 +84,9 @@ def opKernelMatrix : Handler := fun j => do
   if !K.accepted then throw "bad-op: parameters rejected by the constructor (AssertionError)"
   let (xs, zs, d) ← getPoints j
   let T ← getTransform j d
-  pure <| Json.mkObj [("K", fssJson (toArr (matrixFast K T xs zs)))]
+  pure <| Json.mkObj [("K", fssJson (toArr (matrixFast K T xs zs))),
+    -- the same matrix through the chain of tensor operations regenerated from `_get_kernel_matrix_impl`
+    ("Kgen", fssJson (toArr (KernelOps.genMatrix K T xs zs)))]
 
 def nanF : Float := 0.0 / 0.0
 
@@ -115,7 +118,8 @@ def opAliasMatrix : Handler := fun j => do
     let T ← getTransform j d
     let cls := ((Gen.Alias.aliases.lookup alias).map className).getD ""
     pure <| Json.mkObj [("cls", toJson cls), ("spec", specJson K),
-      ("K", fssJson (toArr (matrixFast K T xs zs)))]
+      ("K", fssJson (toArr (matrixFast K T xs zs))),
+      ("Kgen", fssJson (toArr (KernelOps.genMatrix K T xs zs)))]
 
 /-- The regenerated alias table. -/
 def opAliases : Handler := fun _ => do
